@@ -209,7 +209,10 @@ def model_fault_line(hist, pt, ops):
 
 def deletion_block_line(line, pt, ops):
     """The direct merge with the queue skipped deletes every q/ branch, one `git push origin :q/<v>` each. The code
-    deletes them in cascade order, the model lists the same deletions in the order of its ref map: independent
+    deletes them in the order of `QueueCollection._queues`, and so does the model (`Flow.qOnly`, a stable sort by
+    `compare_queues` of the names in byte order): when both orders agree the fault keeps its positional form. The
+    set form below is kept for the one case in which the model's plain stable sort may differ from Python's binary
+    insertion (hotfix + stabilization + development queue of one major.minor): the deletions are independent
     operations, and the theorems (C02_recovery_skipqueue, C02_prefix_safe) quantify over every prefix and over a
     refusal per operation, i.e. over every SUBSET of deleted q/ branches. A fault inside the block is therefore
     put to the model by the set of q/ branches the real job had deleted: `crashrej K i=ref,...` = every deletion
@@ -242,6 +245,14 @@ def deletion_block_line(line, pt, ops):
     mdels = [(i, k[len('delete='):]) for i, k in enumerate(kinds) if k.startswith('delete=')]
     if sorted(r for _, r in mdels) != sorted(r for _, r in dels) or len(kinds) != len(gits):
         return line                           # not the same operations: let the positional comparison say so
+    log = os.environ.get('VERIF_C02_ORDER_LOG')
+    if log:
+        with open(log, 'a') as fh:
+            fh.write('%s real=%s model=%s\n' % ('same' if [r for _, r in mdels] == [r for _, r in dels] else 'DIFF',
+                                                [r for _, r in dels], [r for _, r in mdels]))
+    if [r for _, r in mdels] == [r for _, r in dels]:
+        # the model (Flow.qOnly) lists the deletions in the order of QueueCollection.delete(): positional again
+        return line
     spec = ','.join('%d=%s' % (i, r) for i, r in mdels if r not in done)
     return 'C02 crashrej %d %s;%s' % (mdels[-1][0] + 1, spec, rest)
 
